@@ -373,6 +373,7 @@ def run(ctx):
         all_checks.append((dict(tn=tn, raw=raw, kind="failure-stream"), mo, ch))
     resave_stream(ctx, g, rng, IRm, all_reqs, all_checks)
     through_constructor(ctx, g, rng, IRm)
+    identical_tables(ctx, g, rng, IRm)
     replies = model_batch(all_reqs)
     for (tb, mo, ch), rep in zip(all_checks, replies):
         for (idx, kind, want) in ch:
@@ -474,6 +475,68 @@ def through_constructor(ctx, g, rng, IRm):
                         % ("unread, loaded" if k != "fresh" else "freshly built", tn, form, bytes(got[k].data).hex()[:80], got[k].type_name,
                            "bytes it was loaded with" if k != "fresh" else "encoding of its value"), {"form": form, "type_name": tn})
                 break
+
+
+def identical_tables(ctx, g, rng, IRm):
+    """Several tables of ONE loaded IR with byte-identical payloads and the same type name (the same table stamped on the IR and on
+    every module): each is a table of its own.  All are read, one is modified in place: the others still read as loaded, are not
+    the same object, and are written back as the bytes they were loaded with; the modified one as the encoding of its new value."""
+    samples = [("mapping<string,uint8_t>", {"a": 1}, lambda d: d.__setitem__("b", 2), {"a": 1, "b": 2}),
+               ("sequence<uint16_t>", [1, 2], lambda d: d.append(3), [1, 2, 3]),
+               ("set<uint8_t>", {5}, lambda d: d.add(6), {5, 6}),
+               ("sequence<sequence<uint8_t>>", [[1]], lambda d: d[0].append(2), [[1, 2]]),
+               ("mapping<uint8_t,sequence<string>>", {1: ["x"]}, lambda d: d[1].append("y"), {1: ["x", "y"]})]
+    for si, (tn, v, edit, v2) in enumerate(samples):
+        for order in ("read-all-then-edit", "edit-then-read-others"):
+            src = g.IR()
+            mods = [g.Module(name="m%d" % i, ir=src) for i in range(2)]
+            import copy
+            for cont in [src] + mods:
+                cont.aux_data["same"] = g.AuxData(copy.deepcopy(v), tn)
+            buf = io.BytesIO()
+            src.save_protobuf_file(buf)
+            p0 = IRm()
+            p0.ParseFromString(buf.getvalue()[8:])
+            raw = bytes(p0.aux_data["same"].data)
+            ir = g.IR.load_protobuf_file(io.BytesIO(buf.getvalue()))
+            conts = [ir] + list(ir.modules)
+            ctx.case("identical-tables:%s:%s" % (tn, order), True)
+            ctx.count("identical_table_scenarios")
+            try:
+                if order == "read-all-then-edit":
+                    datas = [c.aux_data["same"].data for c in conts]
+                    edit(datas[0])
+                else:
+                    d0 = conts[0].aux_data["same"].data
+                    edit(d0)
+                    datas = [d0] + [c.aux_data["same"].data for c in conts[1:]]
+                if any(datas[i] is datas[j] for i in range(3) for j in range(i)):
+                    ctx.add("oracle", "stale-or-wrong-bytes", "two tables (type %s) loaded with identical bytes hand out THE SAME object as their data" % tn, {"type_name": tn, "order": order})
+                    continue
+                if datas[0] != v2 or datas[1] != v or datas[2] != v:
+                    ctx.add("oracle", "stale-or-wrong-bytes", "after one of three identical tables (type %s) was modified in place (%s) they read %r; expected %r and twice %r"
+                            % (tn, order, datas, v2, v), {"type_name": tn, "order": order})
+                    continue
+                out = io.BytesIO()
+                ir.save_protobuf_file(out)
+                p = IRm()
+                p.ParseFromString(out.getvalue()[8:])
+                got = [bytes(p.aux_data["same"].data)] + [bytes(m.aux_data["same"].data) for m in p.modules]
+                want0 = impl_bytes(g, v2, tn)
+                if got[1] != raw or got[2] != raw or (want0 is not None and len(got[0]) != len(want0)):
+                    ctx.add("oracle", "untouched-rewritten", "one of three identical tables (type %s) was modified in place; the other two are written as %s / %s, they were loaded as %s"
+                            % (tn, got[1].hex(), got[2].hex(), raw.hex()), {"type_name": tn, "order": order})
+            except Exception as e:  # noqa: BLE001
+                ctx.add("oracle", "save-fails", "the identical-tables scenario (type %s, %s) raised %s" % (tn, order, exc_name(g, e)), {"type_name": tn})
+
+
+def impl_bytes(g, v, tn):
+    buf = io.BytesIO()
+    try:
+        g.AuxData.serializer.encode(buf, v, tn)
+        return buf.getvalue()
+    except Exception:  # noqa: BLE001
+        return None
 
 
 def resave_stream(ctx, g, rng, IRm, all_reqs, all_checks):
